@@ -205,7 +205,7 @@ def run_kani(overlay, filters, jobs=None, harness_timeout=None, total_timeout=36
 PLAYBACK_RE = re.compile(r"/// Test generated for harness `([^`]*)`\s*\n\s*///\s*\n\s*/// Check for `(\w+)`: \"([^\n]*)\"\s*\n\s*#\[test\]\s*\n\s*fn (\w+)\(\) \{(.*?)\n\s*\}\n", re.S)
 
 
-def counterexample(overlay, harness_full, features=None, timeout=1800):
+def counterexample(overlay, harness_full, features=None, timeout=1800, returns=False):
     """Asks Kani for the concrete values of a failing harness (concrete playback), then executes
     the harness natively on them against the real code (`cargo kani playback`).
     Returns a dict for the replay file."""
@@ -221,7 +221,7 @@ def counterexample(overlay, harness_full, features=None, timeout=1800):
     tests = []
     for m in PLAYBACK_RE.finditer(text):
         h, kind, desc, fname, body = m.groups()
-        if h.split("::")[-1] != short or kind == "cover":
+        if h.split("::")[-1] != short or (kind == "cover") != returns:
             continue
         vals = re.findall(r"//\s*(-?\d+)\s*\n\s*vec!\[([^\]]*)\]", body)
         tests.append({"test": fname, "check": desc, "values": [v[0] for v in vals],
@@ -263,6 +263,14 @@ def counterexample(overlay, harness_full, features=None, timeout=1800):
     t2 = out2 + "\n" + err2
     rep["playback_cmd"] = " ".join(pcmd)
     failed = re.findall(r"^test (\S+) \.\.\. FAILED", t2, re.M)
+    passed = re.findall(r"^test (\S+) \.\.\. ok", t2, re.M)
+    if returns:
+        # the violation is that the call returns: natively the harness body then runs to its end without panicking
+        rep["reproduced"] = bool(passed) and not failed
+        rep["expectation"] = "the call with this invalid argument returns instead of panicking (native run completes)"
+        if not rep["reproduced"]:
+            rep["note"] = "native playback did not complete normally (rc=%s): %s" % (rc2, t2[-600:])
+        return rep
     rep["reproduced"] = bool(failed)
     pm = re.findall(r"panicked at ([^\n]*)\n([^\n]*)", t2)
     rep["native_panics"] = ["%s: %s" % (a, b) for a, b in pm[:4]]
